@@ -20,9 +20,9 @@ ProjOK(p) ==
   /\ \A t \in PTrees : p.applied[t] = Len(applied'[t])
   /\ {<<p.desired[i][1], p.desired[i][2]>> : i \in 1..Len(p.desired)} = Desired'
 
-TInit == l = 1 /\ Rec[1].k = "Reset" /\ InitWith(Rec[1].cfg)
+TInit == l = 2 /\ Rec[1].k = "Reset" /\ InitWith(Rec[1].cfg)     \* the first event is consumed by Init
 
-TReset == /\ IsEvent("Reset") /\ l > 1
+TReset == /\ IsEvent("Reset")
           /\ Cfg' = Rec[l].cfg
           /\ cache' = [t \in Trees |-> {}] /\ applied' = [t \in Trees |-> <<>>]
           /\ bmFinal' = FALSE /\ finalised' = "no"
@@ -45,11 +45,11 @@ TFinalize == /\ IsEvent("Finalize")
 
 TNext == (TReset \/ TAdd \/ TApply \/ TFinalize) /\ l' = l + 1
 
-TraceInit == TInit /\ l = 1
+TraceInit == TInit
 
 \* the whole file was matched: after the last event l = Len(Rec) + 1
 Accepted ==
   LET d == TLCGet("stats").diameter IN
-  IF d - 1 = Len(Rec) THEN TRUE
-  ELSE Print(<<"TRACE-REJECTED at event", d, IF d <= Len(Rec) THEN Rec[d] ELSE "eof">>, FALSE)
+  IF d = Len(Rec) THEN TRUE
+  ELSE Print(<<"TRACE-REJECTED at event", d + 1, IF d + 1 <= Len(Rec) THEN Rec[d + 1] ELSE "eof">>, FALSE)
 =============================================================================
